@@ -51,3 +51,20 @@ func (s *Service) VerifQueueState() VerifQueueState {
 	}
 	return st
 }
+
+// VerifConn is implemented by the simulator's connection: like a *nats.Conn
+// it is given the service's connection handlers, which it calls from a
+// goroutine of its own when it is reconnected, disconnected or closed.
+type VerifConn interface {
+	VerifSetHandlers(reconnect, disconnect, closed func())
+}
+
+func simConnHandlers(s *Service, conn Conn) {
+	if vc, ok := conn.(VerifConn); ok {
+		vc.VerifSetHandlers(
+			func() { s.handleReconnect(nil) },
+			func() { s.handleDisconnect(nil) },
+			func() { s.handleClosed(nil) },
+		)
+	}
+}
